@@ -460,25 +460,26 @@ Proof. vm_compute. auto. Qed.
 
 (* ------------------------------------------------------------------ custody approval *)
 (* What the property demands of a release: approvals by LISTED custodians reach the threshold. *)
-Definition custody_spec (cfg : cust_cfg) (e : cust_entry) (caller : acct) (legit_votes : Z) : Prop :=
-  forall b b' left, custody_approve cfg e caller b = Ok (b', left) ->
+Definition custody_spec_of (approve : cust_cfg -> cust_entry -> acct -> balances -> outcome (balances * option cust_entry))
+           (cfg : cust_cfg) (e : cust_entry) (caller : acct) : Prop :=
+  forall b b' left, approve cfg e caller b = Ok (b', left) ->
   forall d, b' (ce_owner e) d < b (ce_owner e) d ->
   in_accts caller (cc_custodians cfg) = true /\
-  (left = None -> legit_threshold cfg (legit_votes + 1) = true).
+  (left = None -> cc_enabled cfg = true -> legit_threshold cfg (ce_votes e + 1) = true).
+Definition custody_spec := custody_spec_of custody_approve.
 
 Definition w_cfg : cust_cfg := mkCC true false 50 [6; 7].
 Definition w_entry : cust_entry := mkCE 5 3 [("ukex"%string, 400)] [("ukex"%string, 100)] 0 false.
 Definition w_bal5 : balances := fun a d => if (a =? 5) && String.eqb d "ukex" then 1000 else 0.
 Definition w_res : balances * option cust_entry :=
-  match custody_approve w_cfg w_entry 2 w_bal5 with Ok x => x | _ => (w_bal5, None) end.
-(* a stranger (account 2) approves: he is paid a reward share and the transfer is released
-   although no listed custodian has approved *)
-Theorem custody_release_only_after_threshold_refuted :
-  ~ (forall cfg e caller legit, custody_spec cfg e caller legit).
+  match custody_approve_any w_cfg w_entry 2 w_bal5 with Ok x => x | _ => (w_bal5, None) end.
+(* without the custodian check (the code before 30f99e5) a stranger (account 2) approves, is paid
+   a reward share and releases the transfer although no listed custodian has approved *)
+Theorem custody_unchecked_refuted : ~ (forall cfg e caller, custody_spec_of custody_approve_any cfg e caller).
 Proof.
   intros H.
-  assert (E : custody_approve w_cfg w_entry 2 w_bal5 = Ok (fst w_res, snd w_res)) by (vm_compute; reflexivity).
-  specialize (H w_cfg w_entry 2 0 w_bal5 (fst w_res) (snd w_res) E "ukex"%string).
+  assert (E : custody_approve_any w_cfg w_entry 2 w_bal5 = Ok (fst w_res, snd w_res)) by (vm_compute; reflexivity).
+  specialize (H w_cfg w_entry 2 w_bal5 (fst w_res) (snd w_res) E "ukex"%string).
   assert (L : fst w_res (ce_owner w_entry) "ukex"%string < w_bal5 (ce_owner w_entry) "ukex"%string) by (vm_compute; reflexivity).
   destruct (H L) as [I _]. vm_compute in I. discriminate.
 Qed.
@@ -487,7 +488,7 @@ Qed.
    a release means the counted votes reached the configured percentage, and when every vote so
    far and the caller are listed custodians that is the threshold the property asks for *)
 Theorem custody_release_partial :
-  forall cfg e caller b b' left, custody_approve cfg e caller b = Ok (b', left) ->
+  forall cfg e caller b b' left, custody_approve_any cfg e caller b = Ok (b', left) ->
   (forall x d, x <> ce_owner e -> b' x d >= b x d) /\
   (forall d, b (ce_owner e) d - b' (ce_owner e) d
              <= (match left with None => amount_of (ce_coins e) d | Some _ => 0 end)
@@ -495,7 +496,7 @@ Theorem custody_release_partial :
   (left = None -> cc_enabled cfg = true -> forall legit, legit = ce_votes e ->
      legit_threshold cfg (legit + 1) = true).
 Proof.
-  intros cfg e caller b b' left H. unfold custody_approve in H.
+  intros cfg e caller b b' left H. unfold custody_approve_any in H.
   destruct (ce_reward e) as [|rw rws] eqn:RW; [discriminate|].
   set (n := Z.of_nat (List.length (cc_custodians cfg))) in *.
   destruct (n =? 0) eqn:N0; [discriminate|].
@@ -519,6 +520,18 @@ Proof.
       pose proof (amount_of_nonneg _ d Hn1). destruct (ce_owner e =? caller); lia.
     + intros K; discriminate.
 Qed.
+
+(* the code as it is (custodian check first): full strength *)
+Theorem custody_release_only_after_threshold : forall cfg e caller, custody_spec cfg e caller.
+Proof.
+  intros cfg e caller b b' left H d Hd. unfold custody_approve in H.
+  destruct (in_accts caller (cc_custodians cfg)) eqn:I; cbn in H; [|discriminate].
+  split; auto. intros Hl En.
+  destruct (custody_release_partial cfg e caller b b' left H) as (_ & _ & T). eapply T; eauto.
+Qed.
+Example custody_nonvacuous :
+  exists b' , custody_approve w_cfg w_entry 6 w_bal5 = Ok (b', None) /\ b' 3 "ukex"%string = 400 /\ b' 6 "ukex"%string = 50.
+Proof. eexists. split; [vm_compute; reflexivity|]. split; vm_compute; reflexivity. Qed.
 
 (* ------------------------------------------------------------------ rotation guards *)
 Theorem rotation_requires_secret_or_half_rr :
